@@ -7,6 +7,7 @@ reference (`Spec.refPoints`, `Spec.refPointsDelta`, `Spec.limitOK`, `Spec.conser
 import Otel.Base.Wire
 import Otel.C12.Model
 import Otel.C12.Spec
+import Otel.C12.Flag
 open Otel Otel.Wire Otel.C02 Otel.C12
 
 namespace Otel.C12.Drv
@@ -22,13 +23,23 @@ def digit (c : Char) : Option Nat := if '0' ≤ c ∧ c ≤ '9' then some (c.toN
 def parseInst (s : String) : Option Inst :=
   match s.toList with
   | [n, k] => do
-    if n != 'i' && n != 'f' then none
-    pure { float := n == 'f', kind := ← parseKind k }
+    if n != 'i' && n != 'f' && n != 'I' && n != 'F' then none
+    pure { float := n == 'f' || n == 'F', kind := ← parseKind k }
   | [n, k, ':', sc, nm, d, u] => do
-    if n != 'i' && n != 'f' then none
-    pure { float := n == 'f', kind := ← parseKind k, scope := ← digit sc, name := some (← digit nm),
+    if n != 'i' && n != 'f' && n != 'I' && n != 'F' then none
+    pure { float := n == 'f' || n == 'F', kind := ← parseKind k, scope := ← digit sc, name := some (← digit nm),
            desc := ← digit d, unit := ← digit u }
   | _ => none
+
+/-- upper-case number letter: the instrument is created by an `n j` operation, not before the first operation -/
+def instLate (s : String) : Bool :=
+  match s.toList with
+  | n :: _ => n == 'I' || n == 'F'
+  | [] => false
+
+/-- runes `r1_r2_…` (decimal code points); `-` = empty -/
+def parseRunes (s : String) : Option (List Nat) :=
+  if s == "-" then some [] else (s.splitOn "_").mapM parseNat
 
 /-- extra criteria: letters D U N V S each followed by one digit; digit 0 = zero value = criterion not given -/
 def parseCrit (v : View) : List Char → Option View
@@ -55,6 +66,7 @@ def parseView5 (p k rn f a : String) : Option View := do
       | ['s'] => some NamePat.star
       | ['q'] => some NamePat.quest
       | 'n' :: r => (parseNat (String.ofList r)).map NamePat.exact
+      | 'g' :: r => (parseRunes (String.ofList r)).map NamePat.glob
       | _ => none
     let kind ← match k.toList with
       | ['-'] => some none
@@ -107,6 +119,7 @@ def parseOp : List String → Option Op
   | ["r", j, a, x] => do pure (.meas (← parseNat j) (← parseSet a) (← parseInt x))
   | ["o", j, a, x] => do pure (.obs (← parseNat j) (← parseSet a) (← parseInt x))
   | ["k"] => some .clear
+  | ["n", j] => do pure (.create (← parseNat j))
   | ["c", r] => do pure (.col (← parseNat r))
   | _ => none
 
@@ -115,14 +128,38 @@ def splitBar (toks : List String) : List (List String) :=
     if t == "|" then ([], if p.1.isEmpty then p.2 else p.1.reverse :: p.2) else (t :: p.1, p.2)) ([], [])
   (if cur.isEmpty then acc else cur.reverse :: acc).reverse
 
-/-- `x.CardinalityLimit.Lookup`: unset, unparsable and non-positive values disable the limit -/
-def parseLimit (s : String) : Nat :=
-  match s.toInt? with
-  | some n => n.toNat
-  | none => 0
+/-- the value of the environment variable: `-` = unset, `x<hex>` = these bytes (possibly none), else the token -/
+def parseEnv (s : String) : Option (Option Bytes) :=
+  if s == "-" then some none
+  else match s.toList with
+    | 'x' :: _ => (parseHex s).map some
+    | _ => some (some s.toUTF8.toList)
 
+/-- `x.CardinalityLimit.Lookup` + `limiter`: `Flag.effectiveLimit` (unset, empty, unparsable and non-positive
+values disable the limit) -/
+def parseLimit (s : String) : Option Nat := (parseEnv s).map Flag.effectiveLimit
+
+/-- one letter per reader; a trailing `+` (each reader collects into its own reused ResourceMetrics) or `*` (all
+readers collect into ONE reused ResourceMetrics) only changes how the harness calls Collect -/
 def parseTps (s : String) : Option (List Temporality) :=
-  s.toList.mapM fun c => if c == 'd' then some .delta else if c == 'c' then some .cumulative else none
+  (s.toList.filter fun c => c != '+' && c != '*').mapM fun c =>
+    if c == 'd' then some .delta else if c == 'c' then some .cumulative else none
+
+/-- no operation touches an instrument before its creation, late instruments are created at most once -/
+def wellFormed (late : List Bool) (ops : List (List String)) : Bool :=
+  (ops.foldl (fun (acc : Bool × List Nat) op =>
+    match op with
+    | ["n", j] =>
+      match j.toNat? with
+      | some j => (acc.1 && late.getD j false && !acc.2.contains j, j :: acc.2)
+      | none => (false, acc.2)
+    | k :: j :: _ =>
+      if k == "m" || k == "o" || k == "p" || k == "r" then
+        match j.toNat? with
+        | some j => (acc.1 && (!(late.getD j false) || acc.2.contains j), acc.2)
+        | none => (false, acc.2)
+      else acc
+    | _ => acc) (true, [])).1
 
 /-! ### canonical metrics (points sorted by attribute id) -/
 
@@ -239,12 +276,13 @@ def refStep (L : Nat) (insts : List Inst) (pipes : List Pipe) (st : RefSt) : Op 
              | none => [] }
   | .obs j a x => if isAsync insts j then { st with cur := st.cur ++ [(j, a, x)] } else st
   | .clear => { st with cur := [] }
+  | .create _ => st
   | .col r =>
     match pipes[r]? with
     | none => st
     | some p =>
       let w := (List.range insts.length).foldl (fun w j =>
-        if isAsync insts j then
+        if cbActive insts j then
           st.cur.foldl (fun w o => if o.1 == j then feed p j o.2.1 o.2.2 w else w) w
         else w) (st.win.getD r [])
       let pv := st.prev.getD r []
@@ -278,7 +316,7 @@ def windowsAt (L : Nat) (insts : List Inst) (pipes : List Pipe) (ops : List Op) 
       | none => acc
       | some p =>
         let w := (List.range insts.length).foldl (fun w j =>
-          if isAsync insts j then
+          if cbActive insts j then
             st.cur.foldl (fun w o => if o.1 == j then feed p j o.2.1 o.2.2 w else w) w
           else w) (st.win.getD r [])
         let ws := (List.range p.streams.length).filterMap fun idx =>
@@ -395,6 +433,13 @@ def judge (L : Nat) (tps : List Temporality) (insts : List Inst) (views : List V
           tagIf (allStreams.any fun s => match s.agg with | some (.plv _) => true | _ => false) "precomputed-last-value" ++
           tagIf (allStreams.any fun s => match s.agg with | some (.hist _) => true | _ => false) "histogram" ++
           tagIf (allStreams.any fun s => match s.agg with | some (.expo _) => true | _ => false) "expo-histogram" ++
+          tagIf (views.any fun v => match v.pat with | .glob _ => true | _ => false) "glob-criterion" ++
+          tagIf (views.any fun v => match v.pat with | .glob p => p.any Glob.isWild && p.any (fun c => Glob.special c && !Glob.isWild c) | _ => false)
+            "glob-special-rune" ++
+          tagIf (ops.any fun o => match o with | .create _ => true | _ => false) "late-instrument" ++
+          tagIf ((List.range insts.length).any fun j => isAsync insts j && !cbActive insts j) "repeated-observable-callback-unused" ++
+          tagIf ((insts.map fun i => (i.name, i.scope)).eraseDups.length < insts.length) "same-name-in-meter" ++
+          tagIf (insts.any fun i => i.scope ≥ 4) "scope-attributes" ++
           tagIf (tps.contains .delta) "delta" ++ tagIf (tps.contains .cumulative) "cumulative"
         pure { agree := mrecs == orecs, spec := if spec then "ok" else "FAIL",
                nontrivial := mrecs.any fun rc => !rc.2.isEmpty,
@@ -473,10 +518,11 @@ def stepLine (_ : Unit) (toks : List String) : Unit × Option Verdict :=
   match inp with
   | "hist" :: _ :: lim :: tps :: istr :: vstr :: rest =>
     let r : Option Verdict := do
-      let L := parseLimit lim
+      let L ← parseLimit lim
       let tps ← parseTps tps
       let insts ← (istr.splitOn ",").mapM parseInst
       let views ← if vstr == "-" then some [] else (vstr.splitOn ",").mapM parseView
+      if !wellFormed ((istr.splitOn ",").map instLate) (splitBar rest) then none
       let variants := linearizations (splitBar rest)
       let vs ← variants.mapM (judge L tps insts views obs)
       let forced := variants.length > 1
@@ -499,6 +545,40 @@ def stepLine (_ : Unit) (toks : List String) : Unit × Option Verdict :=
               let (agree, spec, mixed) := perStream L vds orecs
               pure (tag { v0 with agree := agree, spec := if spec then "ok" else "FAIL" }
                         (if mixed then "forced-race,per-stream-order" else "forced-race"))
+    ((), r)
+  | ["vmatch", _, pat, name, mask] =>
+    -- NewView(Instrument{Name: pat}, Stream{Name: mask})(Instrument{Name: name}) => matched, stream name
+    let r : Option Verdict := do
+      let p ← parseRunes pat
+      let n ← parseRunes name
+      let m ← parseRunes mask
+      let wild := p.any Glob.isWild
+      let usable := !p.isEmpty && !(wild && !m.isEmpty)        -- IsEmpty ⇒ emptyView; wildcard + rename ⇒ emptyView
+      let mm := usable && Glob.nameMatch p n
+      let renderR := fun (l : List Nat) => if l.isEmpty then "-" else "_".intercalate (l.map toString)
+      let render := fun (b : Bool) => if b then s!"1 {renderR (if m.isEmpty then n else m)}" else "0 -"
+      let specB := usable && Glob.globMatch p n                -- the glob specification, not the regexp model
+      let tags := tagIf p.isEmpty "empty-criterion" ++ tagIf wild "wildcard" ++ tagIf (!wild && !p.isEmpty) "literal" ++
+        tagIf (wild && !m.isEmpty) "wildcard-rename" ++ tagIf mm "match" ++ tagIf (!mm) "no-match" ++
+        tagIf (p.any fun c => Glob.special c && !Glob.isWild c) "special-rune" ++
+        tagIf (n.contains Glob.nl) "newline-in-name" ++ tagIf (p.contains Glob.star) "star" ++ tagIf (p.contains Glob.qm) "quest" ++
+        tagIf ((p ++ n).any (· ≥ 128)) "non-ascii"
+      pure { agree := " ".intercalate obs == render mm,
+             spec := if " ".intercalate obs == render specB then "ok" else "FAIL",
+             nontrivial := wild, branches := if tags.isEmpty then "-" else ",".intercalate tags, model := render mm }
+    ((), r)
+  | ["flag", _, env] =>
+    -- x.CardinalityLimit.Lookup() with the variable unset / set to these bytes => value, ok
+    let r : Option Verdict := do
+      let e ← parseEnv env
+      let (n, ok) := Flag.lookup e
+      let m := s!"{n} {if ok then 1 else 0}"
+      let tags := tagIf ok "parsed" ++ tagIf (!ok) "rejected" ++ tagIf (e == none) "unset" ++ tagIf (e == some []) "empty" ++
+        tagIf (Flag.effectiveLimit e > 0) "limit-on" ++ tagIf (ok && n ≤ 0) "non-positive" ++
+        tagIf (match e with | some (43 :: _) => true | _ => false) "plus-sign" ++
+        tagIf (match e with | some s => s.length ≥ 19 | none => false) "slow-path-length"
+      pure { agree := " ".intercalate obs == m, spec := if " ".intercalate obs == m then "ok" else "FAIL",
+             nontrivial := e != none && e != some [], branches := ",".intercalate tags, model := m }
     ((), r)
   | _ => ((), none)
 
